@@ -37,6 +37,7 @@ pub const BACKGROUNDS: &[&str] = &[
     "\u{90}",                 // DcsEntry (8-bit)
     "\x1bP1;2",               // DcsParam
     "\x1bP?",                 // DcsParam with marker
+    "\x1bP1;2;3;4;5;6;7;8;9;10;11;12;13;14;15;16;17;18;19;20;21;22;23;24;25;26;27;28;29;30;31;32", // DcsParam, 32 params
     "\x1bP1$",                // DcsIntermediate
     "\x1bP1;2|",              // DcsPassthrough
     "\x1bP:",                 // DcsIgnore
